@@ -298,6 +298,19 @@ def _build(spec, seed=0):
     if op == "Sub":
         a, b = [build(k, seed) for k in spec["kids"]]
         return a - b
+    if op in ("IAdd", "ISub", "IMul"):
+        a, b = [build(k, seed) for k in spec["kids"]]
+        if op == "IAdd":
+            a += b
+        elif op == "ISub":
+            a -= b
+        else:
+            a *= b
+        return a
+    if op == "IScale":
+        a = build(spec["kids"][0], seed)
+        a *= scalar_of(spec["c"])
+        return a
     if op == "Neg":
         return -build(spec["kids"][0], seed)
     if op == "LScale":
